@@ -219,7 +219,9 @@ def exPeers : List LPeer :=
 /-- the peers list of the example: one IP range and two workloads -/
 example : (exEngine.peersList.toOption.map fun l => l.map (·.str)) =
     some ["0.0.0.0-255.255.255.255", "default/a[Pod]", "default/b[Pod]"] := by
-  unfold peersList; rw [exEngine_blocks]; decide
+  unfold peersList
+  rw [exEngine_blocks, podOwnersMap_eq (l := [podA, podB]) (by decide) (by decide)]
+  decide
 
 example : exPeers.map (·.str) =
     ["0.0.0.0-255.255.255.255", "default/a[Pod]", "default/b[Pod]"] := by decide
